@@ -462,14 +462,16 @@ def r6_primitives(ctx, F):
             recv = noref(b.trace(b.val(cs[0].args[0]), ('DerefMut::deref_mut', 'Deref::deref')))
             ok = recv.kind == 'arg' and recv.key == 1
             if argn is not None:
-                ok = ok and noref(b.val(cs[0].args[1])) == V('arg', argn)
+                conv = ('String::as_str', 'Deref::deref', 'AsRef::as_ref', 'Borrow::borrow', 'str::as_ref')
+                ok = ok and noref(b.trace(b.val(cs[0].args[1]), conv)) == V('arg', argn)
                 if path.endswith('::insert') and 'RandomChoices' in path:
                     ok = ok and noref(b.val(cs[0].args[2])) == V('arg', 3)
         ctx.check(ok, rule, path.split('::')[-3].split('<')[0] + '::' + path.split('::')[-1], b,
                   good='%s is exactly %s on its own collection with its own argument' % (path.split('::')[-1], pats[0]),
                   bad='%s is not a plain %s of its argument on its own collection' % (path, pats[0]))
     b = F.body('actor::timers::Timers::<T>::iter')
-    it = b.calls_to('HashSet::iter', 'HashableHashSet::iter')
+    it = [c for c in b.calls_to('HashSet::iter', 'HashableHashSet::iter', 'IntoIterator::into_iter')
+          if noref(b.trace(b.val(c.args[0]), ('Deref::deref',))).kind == 'arg']
     ctx.check(len(it) == 1 and not b.calls_to('Iterator::filter', 'Iterator::take', 'Iterator::skip'), rule,
               'Timers::iter', b, good='Timers::iter enumerates every set timer',
               bad='Timers::iter does not enumerate all set timers')
